@@ -256,9 +256,10 @@ SEQ_REACH = {
     "VH_SEQ_V1MultisigDistinctKeys": ["accepted"],
     "VH_SEQ_V1ProofAndExpirySameBlock": ["end"],
     "VH_SEQ_MinerPayouts": ["accepted"],
+    "VH_SEQ_V1SigTimelock": ["accepted", "accepted-at-sig-bound", "accepted-at-uc-bound"],
 }
 SEQ_V1 = ["VH_SEQ_V1FormContract", "VH_SEQ_V1Revision", "VH_SEQ_V1SiafundClaim", "VH_SEQ_V1Resolution", "VH_SEQ_V1SameTxnDouble", "VH_SEQ_V1MultisigDistinctKeys",
-          "VH_SEQ_V1ProofAndExpirySameBlock", "VH_SEQ_MinerPayouts"]
+          "VH_SEQ_V1ProofAndExpirySameBlock", "VH_SEQ_MinerPayouts", "VH_SEQ_V1SigTimelock"]
 SEQ_H1 = ["harness/cons/v1seq.go", "harness/common/cons_world.go", "harness/common/cons_support.go"]
 SEQ_CUTS = ["TransactionWeight/V2TransactionWeight: an arbitrary value (uninterpreted)", "FileContractTax / V2FileContractTax: uninterpreted tax(value) <= value (the same function in validation and application)",
             "StorageProofLeafIndex: arbitrary index below the leaf count", "V1Currency inside hash pre-images: fixed-width injective code (real variable-length code checked in C11)",
@@ -308,10 +309,10 @@ PROPS["C07"] = {
     "stubs": SEQ_CUTS, "assumptions": SEQ_ASSUME,
 }
 PROPS["C08"] = {
-    "runs": seq_check(["VH_SEQ_V2PolicyLocks", "VH_SEQ_ForkHeightsAndV1Locks", "VH_SEQ_V2ResolutionOutputs", "VH_SEQ_V2ReviseRevise", "VH_SEQ_V1FormContract", "VH_SEQ_V1Revision", "VH_SEQ_V1SiafundClaim"]),
+    "runs": seq_check(["VH_SEQ_V2PolicyLocks", "VH_SEQ_ForkHeightsAndV1Locks", "VH_SEQ_V2ResolutionOutputs", "VH_SEQ_V2ReviseRevise", "VH_SEQ_V1FormContract", "VH_SEQ_V1Revision", "VH_SEQ_V1SiafundClaim", "VH_SEQ_V1SigTimelock"]),
     "tv_runs": {"quick": 0, "thorough": 0},
     "bounds": {"quick": "symbolic heights, fork heights and maturity delay: accepted => bound respected with the exact comparison and operand (v2 policy locks use the tip height, maturity/timelocks the child height; storage proof >= proof height; expiration > expiration height; revision <= proof height; v1 < require height; v2 >= allow height), plus reachability of acceptance exactly at the bound for policy locks", "thorough": "same"},
-    "outside": ["time locks (after(t)) at validator level (policy semantics incl. after(): C14)", "v1 per-signature timelocks (harnesses use zero-signature unlock conditions); v1 unlock-condition timelocks and contract windows ARE covered"],
+    "outside": ["time locks (after(t)) at validator level (policy semantics incl. after(): C14)", "v1 per-signature and unlock-condition timelocks are covered for one whole-transaction signature (accepted => timelock <= child height, acceptance exactly at the bound reachable), v1 contract windows for formation and revision"],
     "stubs": SEQ_CUTS, "assumptions": SEQ_ASSUME,
 }
 PROPS["C01"] = {
